@@ -15,7 +15,7 @@ def is_bookkeeping(sql):
 
 
 def check(events, statements, outcome, lock_before, lock_after,
-          saved=None, purge=False):
+          saved=None, purge=False, model_tables=None):
     """events: [(seq, name, payload)], statements: [(seq, sql, params,
     fault_marker)], outcome: 'ok' | 'failed'.
     Returns list of (clause, detail)."""
@@ -105,6 +105,28 @@ def check(events, statements, outcome, lock_before, lock_after,
             # run fails in between"); evolutions and migrations are applied
             # one at a time
             out.append(('several-%s-left-open' % start, {'n': len(open_)}))
+    # the models a created_models names are the ones whose table was
+    # created since the first creating_models of that creation batch
+    # (model_tables: {(app label, model name): table})
+    if model_tables:
+        first_creating = None
+        for seq, name, payload in events:
+            if name == 'creating_models' and first_creating is None:
+                first_creating = seq
+            elif name == 'created_models' and first_creating is not None:
+                made = set()
+                for (s, q) in eff:
+                    if first_creating < s < seq and \
+                            q.upper().startswith('CREATE TABLE'):
+                        made.add(q.split('"')[1])
+                missing = [m for m in (payload.get('model_names') or [])
+                           if model_tables.get((payload.get('app_label'), m))
+                           not in made]
+                if missing:
+                    out.append(('created_models-names-a-model-whose-table-'
+                                'was-not-created', {'models': missing,
+                                                    'app': payload.get(
+                                                        'app_label')}))
     # every non-bookkeeping effect statement lies inside some pair
     spans = []
     for start, end in pairs:
